@@ -741,7 +741,141 @@ Proof.
       unfold unit_char, is_dot_or_digit in D. apply negb_true_iff in D. apply orb_false_iff in D as [D _]. rewrite D. reflexivity. }
   assert (Hloop : pyro_loop (length s) s 0 = POk (dterms_total ((ds, u) :: ts))).
   { rewrite pyro_loop_gen by (auto; unfold max_int64; lia).
-    rewrite Es. rewrite gen_loop_terms; auto; try lia. rewrite Z.add_0_l. reflexivity. }
+    rewrite Es. rewrite gen_loop_terms; auto; try lia. }
   rewrite Hsign. assert (Hb : beqb s [48%N] = false) by (rewrite Hs; apply beqb_two). rewrite Hb.
   rewrite Hloop. rewrite Hs. reflexivity.
+Qed.
+
+(* ------------------------------------------------------------------------------------------------ *)
+(* sizes: integer number, optional white space, unit *)
+
+Definition num_char (c : N) : bool := is_digit c || N.eqb c 46.
+
+Lemma bs_multiplier_pos : forall u m, bs_multiplier u = Some m -> 1 <= m.
+Proof.
+  intros u m H. unfold bs_multiplier in H.
+  repeat match type of H with (if ?b then _ else _) = _ => destruct b end; inversion H; subst; vm_compute; discriminate.
+Qed.
+
+Lemma existsb_false_forallb : forall {A} (p : A -> bool) l, forallb (fun x => negb (p x)) l = true -> existsb p l = false.
+Proof.
+  induction l as [|x l IH]; intros H; [reflexivity|]. simpl in *. apply andb_true_iff in H as [Hx Hl].
+  apply negb_true_iff in Hx. rewrite Hx, (IH Hl). reflexivity.
+Qed.
+
+Lemma bytesize_int_lemma : forall ds ws u m,
+  ds <> [] -> forallb is_digit ds = true -> forallb re_space ws = true ->
+  forallb (fun c => negb (is_digit c)) u = true ->
+  starts_with (fun c => negb (num_char c) && negb (re_space c)) u ->
+  trim_space (ds ++ ws ++ u) = ds ++ ws ++ u ->
+  bs_multiplier (lower_for_lookup (length u) u) = Some m ->
+  bytesize_parse (ds ++ ws ++ u) =
+    if digits_val ds * m <=? max_int64 then Some (digits_val ds * m) else None.
+Proof.
+  intros ds ws u m Hne Hd Hws Hu Hhead Htrim Hm. unfold bytesize_parse. rewrite Htrim.
+  assert (Hd' : forallb num_char ds = true).
+  { apply forallb_forall. intros x Hx. eapply forallb_forall in Hd; eauto. unfold num_char. rewrite Hd. reflexivity. }
+  assert (Hh1 : starts_with (fun c => negb (num_char c)) (ws ++ u)).
+  { destruct ws as [|w ws'].
+    - destruct u as [|c u']; [exact I|]. simpl in *. apply andb_true_iff in Hhead as [H _]. exact H.
+    - simpl in *. apply andb_true_iff in Hws as [Hw _]. unfold num_char, is_digit. unfold re_space in Hw. lia. }
+  change (fun c : N => is_digit c || N.eqb c 46) with num_char.
+  rewrite (span_app num_char ds (ws ++ u) Hd' Hh1).
+  destruct ds as [|c0 ds']; [congruence|].
+  assert (Hh2 : starts_with (fun c => negb (re_space c)) u).
+  { destruct u as [|c u']; [exact I|]. simpl in *. apply andb_true_iff in Hhead as [_ H]. exact H. }
+  rewrite (span_app re_space ws u Hws Hh2).
+  rewrite (existsb_false_forallb is_digit u Hu). rewrite Hm.
+  assert (Hnodot : existsb (N.eqb 46) (c0 :: ds') = false).
+  { apply existsb_false_forallb. apply forallb_forall. intros x Hx. eapply forallb_forall in Hd; eauto.
+    unfold is_digit in Hd. apply negb_true_iff. apply N.eqb_neq. lia. }
+  rewrite Hnodot.
+  pose proof (bs_multiplier_pos _ _ Hm) as Hmp.
+  pose proof (dv_from_ge (c0 :: ds') 0 Hd ltac:(lia)) as Hv. change (dv_from 0 (c0 :: ds')) with (digits_val (c0 :: ds')) in Hv.
+  set (v := digits_val (c0 :: ds')) in *.
+  destruct (Z.leb_spec two64 v) as [Hbig|Hsmall].
+  - replace (v * m <=? max_int64) with false; [reflexivity|]. symmetry. apply Z.leb_gt. unfold two64, max_int64 in *. nia.
+  - rewrite (div_ltb_mul max_int64 m v) by (unfold max_int64; lia).
+    destruct (Z.leb_spec (v * m) max_int64); [replace (max_int64 <? v * m) with false by lia|replace (max_int64 <? v * m) with true by lia]; reflexivity.
+Qed.
+
+(* ------------------------------------------------------------------------------------------------ *)
+(* attime: all-digit arguments *)
+
+Definition plausible_date (ds : bytes) : bool :=
+  let y := digits_val (firstn 4 ds) in
+  let m := digits_val (firstn 2 (skipn 4 ds)) in
+  let d := digits_val (skipn 6 ds) in
+  (length ds =? 8)%nat && (1900 <? y) && (1 <=? m) && (m <=? 12) && (1 <=? d) && (d <=? days_in m y).
+
+Definition date_seconds (ds : bytes) : Z :=
+  days_from_civil (digits_val (firstn 4 ds)) (digits_val (firstn 2 (skipn 4 ds))) (digits_val (skipn 6 ds)) * 86400.
+
+Lemma attime_digits_lemma : forall now s ds,
+  attime_clean s = ds -> ds <> [] -> forallb is_digit ds = true ->
+  attime_parse now s =
+    Some (1000000000 * (if plausible_date ds then date_seconds ds else Z.min (digits_val ds) max_int64)).
+Proof.
+  intros now s ds Hc Hne Hd. unfold attime_parse. rewrite Hc.
+  assert (Hdo : digits_only ds = true) by (unfold digits_only; destruct ds; [congruence|exact Hd]).
+  rewrite Hdo. unfold yyyymmdd, plausible_date, date_seconds, go_atoi. rewrite Hdo, Hd. cbv zeta.
+  set (y := digits_val (firstn 4 ds)). set (m := digits_val (firstn 2 (skipn 4 ds))). set (d := digits_val (skipn 6 ds)).
+  destruct (length ds =? 8)%nat; cbn [andb]; [|apply f_equal; ring].
+  destruct (1900 <? y); destruct (1 <=? m); destruct (m <=? 12); destruct (1 <=? d); destruct (d <=? days_in m y);
+    cbn [andb]; apply f_equal; ring.
+Qed.
+
+(* ------------------------------------------------------------------------------------------------ *)
+(* documented unit spellings; exact form of the relative theorem *)
+
+From Coq Require Import Ascii.
+Definition bs (s : string) : bytes := map (fun a => N_of_ascii a) (list_ascii_of_string s).
+
+Definition doc_unit_table : list (bytes * Z) :=
+  map (fun p => (bs (fst p), snd p))
+  [("s", 1); ("sec", 1); ("secs", 1); ("second", 1); ("seconds", 1);
+   ("min", 60); ("mins", 60); ("minute", 60); ("minutes", 60);
+   ("h", 3600); ("hour", 3600); ("hours", 3600);
+   ("d", 86400); ("day", 86400); ("days", 86400);
+   ("w", 604800); ("week", 604800); ("weeks", 604800);
+   ("mon", 2592000); ("month", 2592000); ("months", 2592000);
+   ("y", 31536000); ("year", 31536000); ("years", 31536000)]%string.
+
+Lemma doc_unit_table_sound : Forall (fun p => get_unit_multiplier (fst p) = snd p) doc_unit_table.
+Proof. unfold doc_unit_table. repeat constructor. Qed.
+
+(* prefix rules, for every continuation of the spelling *)
+Lemma unit_prefix_s : forall r, get_unit_multiplier (115 :: r)%N = 1.
+Proof. reflexivity. Qed.
+Lemma unit_prefix_h : forall r, get_unit_multiplier (104 :: r)%N = 3600.
+Proof. reflexivity. Qed.
+Lemma unit_prefix_d : forall r, get_unit_multiplier (100 :: r)%N = 86400.
+Proof. reflexivity. Qed.
+Lemma unit_prefix_w : forall r, get_unit_multiplier (119 :: r)%N = 604800.
+Proof. reflexivity. Qed.
+Lemma unit_prefix_y : forall r, get_unit_multiplier (121 :: r)%N = 31536000.
+Proof. reflexivity. Qed.
+Lemma unit_prefix_mon : forall r, get_unit_multiplier (109 :: 111 :: 110 :: r)%N = 2592000.
+Proof. reflexivity. Qed.
+Lemma unit_prefix_min : forall r, get_unit_multiplier (109 :: 105 :: 110 :: r)%N = 60.
+Proof. reflexivity. Qed.
+Lemma unit_prefix_M : forall r, get_unit_multiplier (77 :: r)%N = 2592000.
+Proof. reflexivity. Qed.
+
+Lemma go_atoi_small : forall ds, ds <> [] -> forallb is_digit ds = true -> digits_val ds < two63 -> go_atoi ds = digits_val ds.
+Proof.
+  intros ds Hne Hd Hv. unfold go_atoi, digits_only. destruct ds; [congruence|]. rewrite Hd. unfold max_int64, two63 in *. lia.
+Qed.
+
+Lemma attime_relative_exact_lemma : forall now s ref sg ts,
+  attime_clean s = ref ++ sg :: render_terms ts ->
+  (sg = 43%N \/ sg = 45%N) ->
+  no_byte 43 ref -> no_byte 45 ref ->
+  Forall term_ok ts -> Forall (fun t => no_byte 43 (snd t)) ts ->
+  - two63 <= 1000000000 * terms_seconds ts < two63 ->
+  attime_parse now s = Some (now + sign_val sg * (1000000000 * terms_seconds ts)).
+Proof.
+  intros now s ref sg ts Hc Hsg Hp Hm Hok Hnp Hr.
+  rewrite (attime_relative_lemma now s ref sg ts Hc Hsg Hp Hm Hok Hnp). f_equal. f_equal.
+  rewrite wrap64_id; [ring|]. unfold sign_val. destruct (N.eqb sg 45); unfold two63 in *; lia.
 Qed.
